@@ -370,6 +370,102 @@ def check_mutable_defaults(ctx, files, rule):
              'self-test of the mutable-default rule failed')
 
 
+_WRITE_METHODS = {'append', 'extend', 'insert', 'add', 'update', 'setdefault', 'pop', 'popitem', 'remove', 'discard', 'clear', 'sort', 'reverse', 'appendleft', 'popleft'}
+_UNDO_METHODS = {'pop', 'popitem', 'remove', 'discard', 'clear', 'popleft'}
+
+
+def instance_state_writes(cls):
+    """writes of a class's methods (other than __init__) to the state of `self` that are neither undone on every exit nor a reset at the top of the method:
+    [(method, node, attribute, why)].  A push is balanced when it stands directly before / inside a `try` whose `finally` undoes it on the same attribute."""
+    out = []
+    for m in [x for x in cls.body if isinstance(x, ast.FunctionDef) and x.name != '__init__']:
+        if not m.args.args or m.args.args[0].arg != 'self' or any(norm(d) in ('staticmethod', 'classmethod') for d in m.decorator_list):
+            continue
+
+        def attr_of(e):
+            # self.X / self.X[...] / self.X.y -> X
+            while isinstance(e, (ast.Subscript, ast.Attribute)) and not (isinstance(e, ast.Attribute) and isinstance(e.value, ast.Name) and e.value.id == 'self'):
+                e = e.value
+            return e.attr if isinstance(e, ast.Attribute) and isinstance(e.value, ast.Name) and e.value.id == 'self' else None
+        finals = {}     # attribute -> try statements whose finally undoes / rebinds it
+        for t in [x for x in ast.walk(m) if isinstance(x, ast.Try) and x.finalbody]:
+            for n in [y for f_ in t.finalbody for y in ast.walk(f_)]:
+                a = None
+                if isinstance(n, ast.Call) and isinstance(n.func, ast.Attribute) and n.func.attr in _UNDO_METHODS:
+                    a = attr_of(n.func.value)
+                elif isinstance(n, (ast.Assign, ast.AugAssign, ast.Delete)):
+                    for tg in (n.targets if isinstance(n, (ast.Assign, ast.Delete)) else [n.target]):
+                        a = a or attr_of(tg)
+                if a:
+                    finals.setdefault(a, []).append(t)
+        for n in walk_no_nested(m):
+            a, what = None, None
+            if isinstance(n, ast.Call) and isinstance(n.func, ast.Attribute) and n.func.attr in _WRITE_METHODS:
+                a, what = attr_of(n.func.value), f'`{norm(n)[:50]}`'
+            elif isinstance(n, (ast.Assign, ast.AugAssign, ast.AnnAssign, ast.Delete)):
+                for tg in (n.targets if isinstance(n, (ast.Assign, ast.Delete)) else [n.target]):
+                    for e_ in (tg.elts if isinstance(tg, (ast.Tuple, ast.List)) else [tg]):
+                        if attr_of(e_):
+                            a, what = attr_of(e_), f'`{norm(n)[:50]}`'
+            if a is None:
+                continue
+            stmt = n
+            while not isinstance(stmt, ast.stmt):
+                stmt = stmt._parent
+            balanced = False
+            for t in finals.get(a, []):
+                in_final = any(stmt is y for f_ in t.finalbody for y in ast.walk(f_))
+                in_body = any(stmt is y for b_ in t.body for y in ast.walk(b_))
+                par = getattr(t, '_parent', None)
+                blk = next((getattr(par, fld) for fld in ('body', 'orelse', 'finalbody') if isinstance(getattr(par, fld, None), list) and t in getattr(par, fld)), [])
+                just_before = t in blk and blk.index(t) > 0 and blk[blk.index(t) - 1] is stmt
+                if in_final or in_body or just_before:
+                    balanced = True
+            top_reset = isinstance(n, ast.Assign) and stmt in m.body and all(not isinstance(x, (ast.If, ast.For, ast.While, ast.Try)) for x in m.body[:m.body.index(stmt)])
+            # a memo entry: self.X[key] = <function of the key and of attributes only the constructor assigns>: the same for every call, whenever it is stored
+            memo = False
+            if isinstance(n, ast.Assign) and len(n.targets) == 1 and isinstance(n.targets[0], ast.Subscript) and attr_of(n.targets[0].value) == a \
+                    and isinstance(n.targets[0].value, ast.Attribute):
+                key_names = {x.id for x in ast.walk(n.targets[0].slice) if isinstance(x, ast.Name)}
+                local_names = {x.id for x in ast.walk(m) if isinstance(x, ast.Name) and isinstance(x.ctx, ast.Store)} | {p_.arg for p_ in m.args.args}
+                written_elsewhere = {attr_of(t_) for mm in cls.body if isinstance(mm, ast.FunctionDef) and mm.name != '__init__' for x in ast.walk(mm)
+                                     if isinstance(x, (ast.Assign, ast.AugAssign)) for t_ in (x.targets if isinstance(x, ast.Assign) else [x.target])} - {a, None}
+                memo = True
+                for x in ast.walk(n.value):
+                    if isinstance(x, ast.Name) and x.id in local_names and x.id not in key_names and x.id != 'self':
+                        memo = False
+                    if isinstance(x, ast.Attribute) and isinstance(x.value, ast.Name) and x.value.id == 'self' and (x.attr in written_elsewhere or x.attr == a):
+                        memo = False
+            if not balanced and not top_reset and not memo:
+                out.append((m, n, a, what))
+    return out
+
+
+def check_instance_state(ctx):
+    """A renderer object serves many calls: what a method writes into `self` during one rendering must be gone when that rendering ends - also when it ends with
+    an exception (the renderer's own fallback catches those and carries on).  Every write to instance state outside __init__ is undone in a `finally`, or is a
+    reset at the top of the method."""
+    RENDER = 'mindsdb_sql/render/sqlalchemy_render.py'
+    tree = ctx.src.tree(RENDER)
+    n = 0
+    for cls in [x for x in tree.body if isinstance(x, ast.ClassDef)]:
+        n += len([x for x in cls.body if isinstance(x, ast.FunctionDef)])
+        for m, node, a, what in instance_state_writes(cls):
+            ctx.ob('C20.instance-state', f'{cls.name}.{m.name}:self.{a}:{norm(node)[:40]}', False,
+                   f'{cls.name}.{m.name} changes the renderer\'s own state ({what}) and does not undo it on every exit (no `finally`): a rendering that fails half-way - the '
+                   f'fallback swallows the exception - or a second thread leaves `self.{a}` changed, and later renderings on the same object come out differently',
+                   file=RENDER, line=node.lineno, witness='render.get_string(<a query that fails>); render.get_string(q) != SqlalchemyRender(d).get_string(q)')
+    ctx.setcount('renderer_methods', n)
+    ctx.ob('C20.instance-state', 'all', True, '')
+    demo = ast.parse('class R:\n    def __init__(self):\n        self.st = []\n    def bad(self, q):\n        self.st.append(1)\n        self.work(q)\n        self.st.pop()\n'
+                     '    def good(self, q):\n        self.st.append(1)\n        try:\n            return self.work(q)\n        finally:\n            self.st.pop()\n')
+    for x in ast.walk(demo):
+        for c in ast.iter_child_nodes(x):
+            c._parent = x
+    bad = {m.name for m, *_ in instance_state_writes(demo.body[0])}
+    ctx.need(bad == {'bad'}, f'self-test of the instance-state rule failed ({sorted(bad)})')
+
+
 def check_caller_objects(ctx):
     nfn = 0
     for f in ctx.src.py_files('mindsdb_sql/planner'):
@@ -771,6 +867,8 @@ def run(ctx):
     check_caller_objects(ctx)
     check_hash_order(ctx)
     check_library_state(ctx)
+    check_instance_state(ctx)
+    ctx.floor('renderer_methods', 20)
     ctx.floor('library_roots', 1)
     ctx.floor('functions_scanned', 450)
     ctx.floor('shared_write_sites', 20)
